@@ -463,6 +463,20 @@ func c15Run(t *testing.T, wl any, sc SchedCfg) *Result {
 				c15cmpUpd(res, name, s.ID, r.GetUpdate(), want.Updates)
 			}
 		}
+		// Shutdown is a request like any other: delivered once to its handler if there is one
+		var sderr error
+		e.Task("shutdown", func() { _, sderr = end.PC.Shutdown(context.Background(), &api.Empty{}) })
+		if err := e.RunUntil(100000, func() bool { return e.TasksDone() }); err != nil {
+			res.Violate("C15.liveness", "Shutdown was not answered: %v", err)
+			return
+		}
+		wantSd := 0
+		if w.Configured {
+			wantSd = 1
+		}
+		if sderr != nil || rec.Shutdowns != wantSd {
+			res.Violate("C15.dispatch", "Shutdown request: err=%v, handler invocations %d, want %d", sderr, rec.Shutdowns, wantSd)
+		}
 		res.Nontrivial = handled > 0
 		if w.Configured {
 			res.Probe("C15.configure-handler." + w.CfgKind)
